@@ -1,6 +1,7 @@
 package main
 
 import (
+	"runtime"
 	"fmt"
 	"go/types"
 	"os"
@@ -102,6 +103,7 @@ type FuncRun struct {
 	RetVals  []Value
 	Params   map[string]Value
 	Err      string
+	Warn     []string // stale proof hints (dropped, not fatal)
 	Prelude  string
 	PreOblig []*Oblig
 }
@@ -142,6 +144,10 @@ func (w *World) RunFunc(pkg, key string, opts RunOpts) (fr *FuncRun) {
 		if r := recover(); r != nil {
 			if ue, ok := r.(unsupErr); ok {
 				fr.Err = "outside-subset: " + ue.msg
+				return
+			}
+			if _, isRT := r.(runtime.Error); isRT {
+				fr.Err = fmt.Sprintf("outside-subset: the verifier could not process the body (%v)", r)
 				return
 			}
 			panic(r)
@@ -189,8 +195,10 @@ func (w *World) RunFunc(pkg, key string, opts RunOpts) (fr *FuncRun) {
 	if ex.fc != nil {
 		for _, d := range ex.fc.Dirs {
 			if (d.Kind == "lemma" || d.Kind == "lemma_chain" || d.Kind == "assume_def") && !ex.usedDirs[d.Line] {
-				fr.Err = fmt.Sprintf("contract directive %s[%s] of %s refers to a program point that does not exist: %s", d.Kind, d.Label, key, strings.SplitN(d.Text, "(", 2)[0])
-				return
+				// a proof hint whose program point no longer exists is dropped: hints only add
+				// instances of definitions or separately discharged lemmas, never assumptions about
+				// the code, so the remaining obligations are attempted without it
+				fr.Warn = append(fr.Warn, fmt.Sprintf("contract hint %s[%s] of %s.%s refers to a program point that does not exist (dropped): %s", d.Kind, d.Label, pkg, key, strings.TrimSpace(strings.SplitN(d.Text, "(", 2)[0])))
 			}
 		}
 	}
@@ -463,4 +471,13 @@ func knownFindingObl(name string) bool {
 		}
 	}
 	return false
+}
+
+// termMuUnlockIfHeld releases termMu after a recovered panic of the (single) driver goroutine.
+func termMuUnlockIfHeld() {
+	if termMu.TryLock() {
+		termMu.Unlock()
+		return
+	}
+	termMu.Unlock()
 }
